@@ -1,5 +1,5 @@
 #!/usr/bin/env python3
-"""T4: regenerate coq/gen/GenDivs.v from the tree under test - every division site of the library
+"""T5: regenerate coq/gen/GenDivs.v from the tree under test - every division site of the library
 (`/`, `//`, `%`, `/=`, `//=`, `%=` in wsimod/{nodes,arcs,core,orchestration}/*.py) with the function it
 is in, the text of its divisor and the conditions that guard it:
    * the tests of the enclosing if / elif / while / conditional expressions (with the branch taken), and
